@@ -34,11 +34,13 @@ SecCh(k) == CASE k = "anon" -> [security |-> ListOf(<<Req(<<>>)>>)]
 SecDef(n) == Mk(("in" :> "header") @@ [type |-> "apiKey", name |-> n], <<>>)
 
 QParam(n, loc) == Mk(("in" :> loc) @@ [name |-> n, type |-> "string"], <<>>)
-ParamKinds == {"inline", "same", "ref", "dangling", "notparam", "lookalike"}
+ParamKinds == {"inline", "same", "ref", "dangling", "notparam", "lookalike", "shadow"}
 ParamOf(k, lvl) ==
   CASE k = "inline"   -> QParam(IF lvl = "path" THEN "limit" ELSE "offset", "query")
     [] k = "same"     -> QParam("id", "path")              \* the same (in, name) at both levels: the operation's must win
     [] k = "ref"      -> Mk(("$ref" :> <<"root", "parameters", "N_1">>), <<>>)
+    \* an inline parameter with the (in, name) of the SHARED parameter N_1 (at operation level it must win over a path-level $ref to N_1)
+    [] k = "shadow"   -> [QParam("filter", "query") EXCEPT !.at = [type |-> "integer"] @@ @]
     [] k = "dangling" -> Mk(("$ref" :> <<"root", "parameters", "doesNotExist">>), <<>>)
     [] k = "notparam" -> Mk(("$ref" :> <<"root", "definitions", "N_2">>), <<>>)
     \* resolves to something that is not a parameter although it has a name and a location (a security scheme)
@@ -65,7 +67,7 @@ Docs ==
          \* pr: the first path item ALSO carries a $ref (its own operations are operations of the document all the same)
          { Base(<<>>, XShared(pr) @@ PathsOf(IF same THEN ("P_1" :> Mk(PRef(pr), (m1 :> OpN(IF i1 = "" THEN <<>> ELSE [operationId |-> i1], <<>>)) @@ (m2 :> OpN(IF i2 = "" THEN <<>> ELSE [operationId |-> i2], <<>>))))
                                   ELSE ("P_1" :> Mk(PRef(pr), (m1 :> OpN(IF i1 = "" THEN <<>> ELSE [operationId |-> i1], <<>>)))) @@ ("P_2" :> Mk(<<>>, (m2 :> OpN(IF i2 = "" THEN <<>> ELSE [operationId |-> i2], <<>>))))))
-           : m1 \in Methods, m2 \in Methods, i1 \in {"", "a"}, i2 \in {"", "a", "b"}, same \in BOOLEAN, pr \in BOOLEAN }
+           : m1 \in Methods, m2 \in Methods, i1 \in {"", "a"}, i2 \in {"", "a", "b", "a b"}, same \in BOOLEAN, pr \in BOOLEAN }
     [] Family = "params" ->
          { Base(<<>>, SharedP @@ PathsOf([P_1 |-> Mk(<<>>, PList(pl, "path") @@ (IF hasop THEN (m :> OpN([operationId |-> "op1"], PList(ol, "op"))) ELSE <<>>))]))
            : m \in {"get", "options", "patch"}, pl \in ParamLists, ol \in ParamLists, hasop \in BOOLEAN }
